@@ -59,7 +59,9 @@ CHECKS = {
    "the stub broker implements only the APIs the client uses; broker-side redelivery by a second consumer run is not exercised", "DESIGN.md §3 C10"),
  "C19": ("exploration", "runtime monitoring: independent framing parsers over payloads captured at the transport of the real output plugins (loopback HTTP/TCP sinks, target file, recording Kafka client)",
    "Real elasticsearch/http/splunk/loki/gelf/file/kafka outputs driven through Out -> Batcher -> out with hostile field values, child/parent events, buffer reuse across batches, retries and 413 split patterns; each payload must parse to exactly the batch's deliverable events in order.",
-   "strict JSON reference parser of the harness; the Kafka client is replaced by a recorder through the verif accessor", "DESIGN.md §3 C19"),
+   "strict JSON reference parser of the harness; the Kafka client is replaced by a recorder through the verif accessor", "DESIGN.md §3 C19"), "C13": ("exploration", "runtime monitoring: crash detection (child processes with on-disk event index) and output validity (encoding/json) for every action plugin under hostile events, inside real single-action and chained pipelines",
+   "Every registered action plus k8s-multiline, 5-16 accepted configurations each, driven with directed and seeded hostile events (absent/null/bool/huge number/float/empty/long/invalid UTF-8/object/array values of the configured fields), stateful ones with time-outs; the process must survive and every output must be valid JSON that re-parses.",
+   "a configuration rejected by the plugin's own validation is discarded; encoding/json decides validity", "DESIGN.md §3 C13"),
 }
 
 PENDING_REASON = "check not built yet in this round (runtime-monitoring design in DESIGN.md §3); not claimed until its monitor exists and is silent on the unchanged tree"
